@@ -7,6 +7,7 @@ import (
 	"fmt"
 	"sort"
 	"strings"
+	"sync"
 	"testing"
 	"time"
 
@@ -90,9 +91,19 @@ func TestVerifMeta(t *testing.T) {
 		r := vs.CaseRand(seed, i)
 		sim := vs.NewSim(metaDefs)
 		hook := vs.NewHookServer(sim)
+		var hmu sync.Mutex
+		slow, entered := map[string]bool{}, map[string]int{}
 		hook.Handler = func(name string, req map[string]interface{}) vs.HookAnswer {
+			base := strings.TrimSuffix(name, "-customize")
+			hmu.Lock()
+			entered[base]++
+			slowNow := slow[base]
+			hmu.Unlock()
 			if strings.HasSuffix(name, "-customize") {
 				return vs.HookAnswer{Code: 200, Body: []byte(`{"relatedResources":[{"apiVersion":"v1","resource":"configmaps"}]}`)}
+			}
+			if slowNow {
+				time.Sleep(150 * time.Millisecond) // a sync that is still in flight when its controller is stopped
 			}
 			return vs.HookAnswer{Code: 200, Body: []byte(`{"attachments":[]}`)}
 		}
@@ -168,6 +179,33 @@ func TestVerifMeta(t *testing.T) {
 			}
 			ev["class"] = class[name]
 			ev["ver"] = ver[name]
+			// sometimes the instance this event stops is in the middle of a sync (its hook call entered, not yet answered)
+			inflightPath := ""
+			if c, ok := mc.decoratorControllers[name]; ok && (ev["type"] == "delete" || ev["type"] == "update") && r.Chance(40) {
+				if sp := c.dc.Spec; sp.Hooks != nil && sp.Hooks.Sync != nil && sp.Hooks.Sync.Webhook != nil && sp.Hooks.Sync.Webhook.URL != nil {
+					u := *sp.Hooks.Sync.Webhook.URL
+					inflightPath = u[strings.LastIndex(u, "/")+1:]
+					hmu.Lock()
+					slow[inflightPath] = true
+					e0 := entered[inflightPath]
+					hmu.Unlock()
+					if cur, gerr := thingClient.Namespace("ns1").Get(ctx, "t1", metav1.GetOptions{}); gerr == nil {
+						cur.Object["spec"].(map[string]interface{})["v"] = int64(1000 + k)
+						_, _ = thingClient.Namespace("ns1").Update(ctx, cur, metav1.UpdateOptions{})
+					}
+					dl := time.Now().Add(2 * time.Second)
+					for time.Now().Before(dl) {
+						hmu.Lock()
+						in := entered[inflightPath] > e0
+						hmu.Unlock()
+						if in {
+							break
+						}
+						time.Sleep(2 * time.Millisecond)
+					}
+				}
+			}
+			ev["inflight"] = inflightPath != ""
 			var recErr error
 			panicked := ""
 			func() {
@@ -180,6 +218,11 @@ func TestVerifMeta(t *testing.T) {
 			}()
 			ev["error"] = recErr != nil
 			ev["panic"] = panicked
+			if inflightPath != "" {
+				hmu.Lock()
+				slow[inflightPath] = false
+				hmu.Unlock()
+			}
 			running := vs.M{}
 			instances := vs.M{} // identity of each hosted instance: an untouched controller keeps its instance
 			var wantPaths []string
